@@ -9,10 +9,10 @@ rm -rf $WT; git -C /repo worktree prune
 git -C /repo worktree add -q --detach $WT HEAD || exit 2
 cd $WT
 mkdir zz_demo && cp "$SRC/demo_test.go" zz_demo/demo_test.go
-CLEAN=$(go test -count=1 -timeout 300s ./zz_demo/ 2>&1 | tail -1)
+CLEAN=$(go test $DEMO_FLAGS -count=1 -timeout 300s ./zz_demo/ 2>&1 | tail -1)
 git apply "$SRC/patch.diff" || { echo "patch does not apply"; cd /; git -C /repo worktree remove --force $WT; exit 2; }
 BUILD=$(go build ./... 2>&1 && go vet -tags verif ./rib ./server >/dev/null 2>&1; go build -tags verif ./... 2>&1 | tail -1)
-MUT=$(go test -count=1 -timeout 300s ./zz_demo/ 2>&1 | tail -1)
+MUT=$(go test $DEMO_FLAGS -count=1 -timeout 300s ./zz_demo/ 2>&1 | tail -1)
 rm -rf zz_demo
 SUITE=$(go test -vet=off -count=1 -timeout 25m ./... 2>&1 | grep -v "no test files" | awk '{print $1}' | sort | uniq -c | tr '\n' ' ')
 cd /
